@@ -29,10 +29,10 @@ func init() {
 			"configurations are separate runs. Oracle: equality with the reference depacketiser run over the arrival sequence (bytes, order, nothing invented, incomplete fragmented units yield nothing), " +
 			"one PTS per RTP timestamp, PTS differences = RTP timestamp differences / clock rate. distinct = event-log hash; non-trivial = at least one link fault fired or a pre-emption",
 		Assumptions: []string{
-			"NAL units are at least 3 bytes, no filler NAL (type 12), no first RTCP sender report arriving mid-stream (it re-bases the clock: outside the statement's quantifier)",
+			"NAL units are at least 3 bytes, no filler NAL (type 12), a track's first RTCP sender report arriving mid-stream re-bases its clock: presentation times are judged separately before and after it, and it is only placed between access units",
 			"a fragmented unit whose fragments were duplicated or reordered may be dropped (the statement only forbids emitting truncated or spliced units)",
 		},
-		RequiredProbes: []string{"c06.fu-broken-by-loss", "c06.fu-complete", "c06.seq-wrap-inside-fu", "c06.sender-report-first", "c06.rtp-timestamp-wrap"},
+		RequiredProbes: []string{"c06.fu-broken-by-loss", "c06.fu-complete", "c06.seq-wrap-inside-fu", "c06.sender-report-first", "c06.rtp-timestamp-wrap", "c06.sender-report-mid-stream"},
 	})
 }
 
@@ -203,16 +203,17 @@ func buildC06(tier string) sim.Scenario {
 		type exp struct {
 			video bool
 			u     oracle.Unit
+			pos   int // index of the arrival that completed the unit
 		}
 		byPos := map[int][]exp{}
 		vunits := oracle.Depacketize(cdc, varr)
 		for _, u := range vunits {
-			byPos[vpos[u.At]] = append(byPos[vpos[u.At]], exp{true, u})
+			byPos[vpos[u.At]] = append(byPos[vpos[u.At]], exp{true, u, vpos[u.At]})
 		}
 		for i, a := range arrivals {
 			if !a.video {
 				for _, u := range oracle.DepacketizeAAC(a.a) {
-					byPos[i] = append(byPos[i], exp{false, u})
+					byPos[i] = append(byPos[i], exp{false, u, i})
 				}
 			}
 		}
@@ -264,14 +265,43 @@ func buildC06(tier string) sim.Scenario {
 			w.Fail("C06/harness", "NewDemuxer: %v", err)
 			return
 		}
-		if tp.Bool() {
+		// a track's first sender report arriving in the middle of the stream, between two access units: it re-bases that
+		// track's clock from there on, so presentation times are judged separately before and after it — but it must not
+		// reach back to units that arrived before it (the demuxer handles reports in arrival order)
+		srFirst := tp.Bool()
+		srAt, srVideo := -1, tp.Bool()
+		if !srFirst && !faulty && tp.Bool() {
+			var cand []int
+			prevTS, have := uint32(0), false
+			for i, a := range arrivals {
+				if a.video != srVideo {
+					continue
+				}
+				if have && (a.a.TS != prevTS || !a.video) {
+					cand = append(cand, i)
+				}
+				prevTS, have = a.a.TS, true
+			}
+			if len(cand) > 0 {
+				srAt = cand[tp.Choose(len(cand))]
+				w.Probe("c06.sender-report-mid-stream")
+			}
+		}
+		if srFirst {
 			// sender reports ahead of the media: every unit is then mapped through the same report
 			// (differences of presentation times must still equal differences of RTP timestamps)
 			w.Probe("c06.sender-report-first")
 			dm.WriteRtpPacket(&rtp.Packet{Channel: rtp.ChannelAudioControl, Data: rtcpSR(3900000000, 440000+uint32(tp.Choose(2000)))})
 			dm.WriteRtpPacket(&rtp.Packet{Channel: rtp.ChannelVideoControl, Data: rtcpSR(3900000000, 1000+uint32(tp.Choose(5000)))})
 		}
-		for _, a := range arrivals {
+		for i, a := range arrivals {
+			if i == srAt {
+				if srVideo {
+					dm.WriteRtpPacket(&rtp.Packet{Channel: rtp.ChannelVideoControl, Data: rtcpSR(3900000000, a.a.TS-uint32(90000+tp.Choose(5000)))})
+				} else {
+					dm.WriteRtpPacket(&rtp.Packet{Channel: rtp.ChannelAudioControl, Data: rtcpSR(3900000000, a.a.TS-uint32(44100+tp.Choose(2000)))})
+				}
+			}
 			ch := byte(rtp.ChannelVideo)
 			pt := byte(96)
 			if !a.video {
@@ -320,11 +350,12 @@ func buildC06(tier string) sim.Scenario {
 		}
 		// presentation times
 		clock := map[bool]float64{true: 90000, false: 44100}
-		var base = map[bool]*exp{}
-		var basePts = map[bool]int64{}
+		type seg struct{ video, afterSR bool }
+		var base = map[seg]*exp{}
+		var basePts = map[seg]int64{}
 		for i, g := range got {
 			e := want[i]
-			v := e.video
+			v := seg{e.video, srAt >= 0 && e.video == srVideo && e.pos >= srAt}
 			if base[v] == nil {
 				ee := e
 				base[v] = &ee
@@ -332,10 +363,10 @@ func buildC06(tier string) sim.Scenario {
 				continue
 			}
 			dts := int64(int32(e.u.TS - base[v].u.TS))
-			wantD := int64(float64(dts) * 1e9 / clock[v])
+			wantD := int64(float64(dts) * 1e9 / clock[v.video])
 			gotD := g.Pts - basePts[v]
 			if gotD-wantD > 2 || wantD-gotD > 2 {
-				w.Fail("C06/pts", "frame %d (video=%v): RTP timestamp advanced by %d ticks since the first unit, presentation time by %d ns, expected %d ns", i, v, dts, gotD, wantD)
+				w.Fail("C06/pts", "frame %d (video=%v, after a mid-stream sender report=%v): RTP timestamp advanced by %d ticks since the first unit of that stretch, presentation time by %d ns, expected %d ns", i, v.video, v.afterSR, dts, gotD, wantD)
 				return
 			}
 		}
